@@ -21,7 +21,8 @@ for ID in $IDS; do
     if [ $TESTS = 1 ]; then
       python3 mc/tools/mkoverlay.py $tmp/ov.json $tmp
       pk=$(grep '^+++ b/' $p | sed 's,^+++ b/,,' | xargs -n1 dirname | sort -u | sed 's,^,./,' | tr '\n' ' ')
-      if ( cd $VERIF_REPO && env -u GOSUMDB -u GOPROXY GOTOOLCHAIN=auto GOFLAGS=-mod=mod go test -overlay $tmp/ov.json -vet=off -count=1 $pk ) > $tmp/tests.log 2>&1; then tests="repo-tests-pass"; else tests="REPO-TESTS-FAIL"; fi
+      mkdir -p $tmp/mod; cp $VERIF_REPO/go.mod $VERIF_REPO/go.sum $tmp/mod/   # private modfile: /repo/go.sum stays untouched
+      if ( cd $VERIF_REPO && env -u GOSUMDB -u GOPROXY GOTOOLCHAIN=auto GOFLAGS=-mod=mod go test -modfile=$tmp/mod/go.mod -overlay $tmp/ov.json -vet=off -count=1 $pk ) > $tmp/tests.log 2>&1; then tests="repo-tests-pass"; else tests="REPO-TESTS-FAIL"; fi
     fi
     out=$(VERIF_WORK=$tmp/work VERIF_EVIDENCE_DIR=$tmp/ev VERIF_EXTRA_OVERLAY=$tmp ./check.sh $ID $TIER 2>&1); rc=$?
     if [[ $name == *.equiv ]]; then
